@@ -5,7 +5,7 @@ import ast
 
 from ..absint import Const, Obj, Tup, explore, vkey
 from ..core import Unrecognised
-from ..repo import chain, params, src, strip_docstring, calls
+from ..repo import chain, params, src, strip_docstring, calls, nsrc
 from ..localroles import rename, discover, by_roles, cli_main, name_of, unique, calls_to, assigned_names
 from ..tables import Bool, check_table, SKIP
 
@@ -266,11 +266,13 @@ def r2_fasta(repo, report):
 
 def r4_interleaved(repo, report):
     m = cli_main(repo)
-    d = [n for n in ast.walk(m) if isinstance(n, ast.Assign) and chain(n.targets[0]) == "is_interleaved_input"]
-    ok = len(d) == 1 and src(d[0].value) == "args.interleaved and len(args.inputs) == 1"
+    from ..repo import expand
     mk = [x for x in calls(m) if chain(x.func) == "make_input_paths"]
-    ok = ok and len(mk) == 1 and [src(a) for a in mk[0].args] == ["args.inputs", "paired", "is_interleaved_input"]
-    report.ob("C19.R4", "input is interleaved iff --interleaved and one input file", ok, facts={"definition": src(d[0].value) if d else None, "passed": src(mk[0]) if mk else None}, expected="is_interleaved_input = args.interleaved and len(args.inputs) == 1", loc=repo.loc(m))
+    passed = [nsrc(src(expand(m, a))) for a in mk[0].args] if len(mk) == 1 else []
+    want = nsrc("args.interleaved and len(args.inputs) == 1")
+    ok = len(passed) == 3 and passed[0] == "args.inputs" and passed[2] == want
+    d = []
+    report.ob("C19.R4", "input is interleaved iff --interleaved and one input file", ok, facts={"passed_expanded": passed}, expected="make_input_paths(args.inputs, paired, args.interleaved and len(args.inputs) == 1)", loc=repo.loc(m))
     fn = repo.func("cli", "make_input_paths")
     ps = params(fn)
     rows = explore(repo, strip_docstring(fn.body), {ps[0]: Obj("INPUTS", nonnull=True), ps[1]: Obj("PAIRED"), ps[2]: Obj("INTERLEAVED")}, inline=False, max_rows=4000)
